@@ -21,7 +21,8 @@ CLAIM = dict(
           'which slot holds cos / sin of which wavenumber, on the neighbour, sign and frequency used (index expressions folded on 16 slots); grad / div / '
           'curl clip by default and clip_wavenumbers zeroes n + padding trailing columns; the u,v ↔ vorticity, divergence converters divide by cos(lat) on '
           'the nodal side, use k×(a,b) = (−b, a) and invert the Laplacian of both potentials. Also decided: cached operator tables (eigenvalues, recurrence weights, masks) are never updated in place (may-alias analysis shared with C01.7); the Fourier basis layout is the same const | 0 | cos k | sin k table in every configuration branch of its builder. Does not decide agreement with analytic derivatives or the '
-          'vector-calculus identities numerically.'),
+          'vector-calculus identities numerically.'
+          " Later additions: C02.10 every Grid factory carries the caller's radius into the constructed grid; the clip mask is decided arm by arm when a fast path on n == c exists (every arm keeps exactly j < L − n); C02.9 metric factors; C02.7 shared tables never updated in place."),
     note=('Reference formulas (cited in rules/c02.py): (1−μ²)dP̄_l^m/dμ = (l+1)ε_l P̄_(l−1) − l ε_(l+1) P̄_(l+1); μP̄_l = ε_(l+1)P̄_(l+1) + ε_l P̄_(l−1); scipy.linalg.dft uses '
           'e^(−2πijk/n) (so sin = −Im). shift(y, s)[l] = y[l − s] with zero fill.'),
     technique='normal forms of coefficient expressions (sympy canonicalisation) + unit-of-measure abstract interpretation + folding of index expressions on a finite slot range',
